@@ -21,8 +21,10 @@ RULE = ("seeded random result contents: 1-6 distinct inputs, 1-20 distinct outpu
         "application; distinct = (container, mapping, invert, collision class, value type, shape); non-trivial = at "
         "least two pre-images merge or a row is empty")
 MANDATORY = ["preimages_merge", "empty_row", "amplitude_refused", "sampling_result", "simulation_result",
-             "repeated_application", "complex_values", "tiny_weights"]
-DECIDING = ["mon.simres_init_postconditions", "mon.mapping_postconditions", "mon.sampres_init_postconditions"]
+             "repeated_application", "complex_values", "tiny_weights",
+             "result_viewed_before_further_use"]
+DECIDING = ["mon.simres_init_postconditions", "mon.mapping_postconditions", "mon.sampres_init_postconditions",
+            "mon.view_postconditions", "mon.dataframe_postconditions"]
 BUDGET = {"quick": 20, "thorough": 300}
 ASSUMPTIONS = ["weights and per-input totals preserved to 1e-12 relative to the L1 norm of the row (tables at scales "
                "from 1e-12 to 1e3 are generated)"]
@@ -171,6 +173,78 @@ def install(lw):
     for cls, is_sim in ((SR, True), (SM, False)):
         wrap_mapping(cls, "apply_threshold_mapping", thr, is_sim)
         wrap_mapping(cls, "apply_parity_mapping", par, is_sim)
+
+    # --- read-only views: printing, tabulating and plotting a result must leave it returning what it was built from,
+    #     and the table must hold the result's values in the order of its state lists ---------------------------------
+    def fingerprint(self, is_sim):
+        if is_sim:
+            return (np.array(self.array, copy=True), [tuple(int(x) for x in s) for s in self.inputs],
+                    [tuple(int(x) for x in s) for s in self.outputs], self.result_type,
+                    repr([(tuple(i), [(tuple(o), v) for o, v in dict(self[i]).items()]) for i in self.inputs]))
+        return (None, tuple(int(x) for x in self.input), [tuple(int(x) for x in s) for s in self.outputs], None,
+                repr([(tuple(o), v) for o, v in dict(self).items()]))
+
+    def same(a, b):
+        return ((a[0] is None or (a[0].shape == b[0].shape and a[0].dtype == b[0].dtype
+                                  and np.array_equal(a[0], b[0], equal_nan=True))) and a[1:] == b[1:])
+
+    def wrap_view(cls, name, is_sim):
+        orig = getattr(cls, name)
+
+        @functools.wraps(orig)
+        def w(self, *a, **kw):
+            try:
+                before = fingerprint(self, is_sim)
+            except Exception:  # noqa: BLE001
+                before = None
+            res = orig(self, *a, **kw)
+            try:
+                if before is not None:
+                    circmon.STATS["view_postconditions"] += 1
+                    if not same(before, fingerprint(self, is_sim)):
+                        circmon.report("C17", f"{cls.__name__}.{name} changed the result it displays (its array / "
+                                              f"indexed values are no longer what it was built from)",
+                                       monitor=name + " post-condition", mechanism="view_changed_result:" + name)
+                if name == "display_as_dataframe" and before is not None:
+                    threshold = kw.get("threshold", a[0] if a else 1e-12)
+                    conv = bool(kw.get("conv_to_probability", a[1] if len(a) > 1 else False)) if is_sim else False
+                    if is_sim:
+                        data = np.array(before[0], dtype=complex)
+                        amp = before[3] == "probability_amplitude"
+                        rows, cols = [str(s) for s in self.inputs], [str(s) for s in self.outputs]
+                    else:
+                        data = np.array([[complex(v) for v in dict(self).values()]], dtype=complex)
+                        amp = False
+                        rows, cols = [str(self.input)], [str(s) for s in self.outputs]
+                    if amp and conv:
+                        data = abs(data) ** 2 + 0j
+                    re_, im_ = data.real.copy(), data.imag.copy()
+                    re_[abs(re_) <= threshold] = 0
+                    im_[abs(im_) <= threshold] = 0
+                    want = re_ + 1j * im_
+                    if not amp or conv:
+                        want = abs(want)
+                    got = np.asarray(res.values)
+                    circmon.STATS["dataframe_postconditions"] += 1
+                    if got.shape != want.shape or list(res.index) != rows or list(res.columns) != cols:
+                        circmon.report("C17", f"display_as_dataframe: shape / labels {got.shape} {list(res.index)[:3]} "
+                                              f"{list(res.columns)[:3]} do not follow the result's state lists",
+                                       monitor="display_as_dataframe post-condition", mechanism="dataframe_labels")
+                    elif want.size and not np.allclose(got, want, rtol=1e-12, atol=0, equal_nan=True):
+                        k_, l_ = np.argwhere(~np.isclose(got, want, rtol=1e-12, atol=0, equal_nan=True))[0]
+                        circmon.report("C17", f"display_as_dataframe: entry [{k_},{l_}] is {got[k_, l_]!r}, the result "
+                                              f"holds {want[k_, l_]!r} there (threshold {threshold})",
+                                       monitor="display_as_dataframe post-condition", mechanism="dataframe_values")
+            except Exception as e:  # noqa: BLE001
+                circmon.STATS["view_monitor_error:" + type(e).__name__] += 1
+            return res
+
+        setattr(cls, name, w)
+
+    for cls, is_sim in ((SR, True), (SM, False)):
+        for name in ("display_as_dataframe", "print_outputs", "plot"):
+            if hasattr(cls, name):
+                wrap_view(cls, name, is_sim)
     SR._lwverif = True
 
 
@@ -264,10 +338,36 @@ def run(ctx):
         case = {"inputs": [[int(x) for x in s.s] for s in ins], "outputs": [[int(x) for x in s.s] for s in outs], "type": kind,
                 "mapping": mapping, "invert": invert, "invert_given_as": inv_form, "states_built_from": state_form}
         container = "sim" if rng.random() < 0.6 else "samp"
+        look = rng.random() < 0.35 and not (wide and k > 40)
+
+        def views(res_, is_sim_):
+            # what a user does with a result before going on: print it, tabulate it, plot it (monitored, see install)
+            import contextlib, io  # noqa: PLC0415, E401
+            ctx.bucket("result_viewed_before_further_use")
+            with contextlib.redirect_stdout(io.StringIO()):
+                if rng.random() < 0.5:
+                    res_.print_outputs(*([int(rng.integers(0, 8))] if is_sim_ and rng.random() < 0.5 else []))
+                if rng.random() < 0.8:
+                    kw_ = {}
+                    if rng.random() < 0.4:
+                        kw_["threshold"] = float(rng.choice([0.0, 1e-12, 1e-7, 0.3]))
+                    if is_sim_ and rng.random() < 0.5:
+                        kw_["conv_to_probability"] = bool(rng.random() < 0.7)
+                    res_.display_as_dataframe(**kw_)
+                if rng.random() < 0.04 and len(res_.outputs) <= 12 and k <= 8:
+                    import matplotlib.pyplot as plt  # noqa: PLC0415
+                    if is_sim_:
+                        res_.plot(show=False, conv_to_probability=bool(rng.random() < 0.5))
+                    else:
+                        res_.plot(show=False)
+                    plt.close("all")
+                    ctx.bucket("result_plotted")
         try:
             if container == "sim":
                 ctx.bucket("simulation_result")
                 r = SR(arr, kind, inputs=ins, outputs=outs)
+                if look:
+                    views(r, True)
                 if kind == "probability_amplitude":
                     ctx.bucket("amplitude_refused")
                     try:
@@ -276,6 +376,8 @@ def run(ctx):
                         pass
                 else:
                     m1 = getattr(r, mapping)(inv_arg)
+                    if look and rng.random() < 0.5:
+                        views(m1, True)
                     if rng.random() < 0.6:
                         ctx.bucket("repeated_application")
                         m2 = getattr(m1, mapping)(invert=inv_arg)
@@ -293,7 +395,11 @@ def run(ctx):
                 ctx.bucket("sampling_result")
                 counts = {o: int(v) for o, v in zip(outs, rng.integers(0, 1000, size=len(outs)))}
                 r = SM(counts, ins[0])
+                if look:
+                    views(r, False)
                 m1 = getattr(r, mapping)(inv_arg)
+                if look and rng.random() < 0.5:
+                    views(m1, False)
                 if rng.random() < 0.6:
                     ctx.bucket("repeated_application")
                     getattr(m1, mapping)(invert=inv_arg)
